@@ -443,10 +443,21 @@ func run(c Case, ev *pbt.Ev) error {
 		n, errno := h.Read(buf, int64(off))
 		return buf[:n], errno
 	}
-	checkRead := func(i int, name string, off int, got []byte) error {
+	const cachedUnverified = "C01-chunk-cached-while-unverified"
+	readUnverified := map[string]bool{} // files read while this cache served a skip-verified mount
+	checkRead := func(i int, name string, off int, got []byte) (rerr error) {
 		if mnt.verified == "" {
+			readUnverified[name] = true
 			return nil // skip-verified mount: no guarantee
 		}
+		defer func() {
+			// recorded finding: chunks that entered the chunk cache while the mount was used without verification
+			// are served from the cache, unverified, after a later Verify succeeded
+			if rerr != nil && readUnverified[name] && pbt.Known(cachedUnverified) {
+				ev.Exclude(cachedUnverified)
+				rerr = nil
+			}
+		}()
 		var want []byte
 		switch mnt.verified {
 		case good.TOCDigest:
